@@ -2,7 +2,9 @@
    Statements only; proofs are in Proofs/WireCommandsProofs.v and Proofs/C13OracleProofs.v.
    The model is of DriverProxy as repaired by fixes/C13-oversize-command-rejected.diff. *)
 Require Import V.Base.MachineInt V.Model.WireBytes V.Model.WireCodes V.Model.WireCommands.
+Require Import V.Model.WireProxySeq.
 Require Import V.Proofs.WireBytesProofs V.Proofs.WireCommandsProofs V.Oracle.C13Oracle V.Proofs.C13OracleProofs.
+Require Import V.Proofs.WireProxySeqProofs.
 Open Scope Z_scope.
 
 (* whatever DriverProxy hands to the ring has the protocol's type code and is the record the
@@ -75,3 +77,40 @@ Example C13_example_subscription :
   = Some (-9223372036854775808, 9223372036854775807, RqAddSubscription (chars 1 5) (-2147483648))
   /\ fst (fst (fst (proxy_call 9223372036854775807 RqKeepalive))) = Ok 0.
 Proof. split; vm_compute; reflexivity. Qed.
+
+(* ---- sequences of calls on one ring that fills up and is drained only now and then ---- *)
+(* For every sequence of requests and drains, on a ring of any capacity: the observations are
+   accepted by the oracle step by step, the requests still pending are exactly the records still in
+   the ring (each the protocol's record of a request that was reported Ok), and once the ring holds
+   no record the oracle's verdict is true: number of Ok results = number of records delivered, in
+   order, each decoding to its request; a refused request (command buffer or ring capacity) left
+   nothing. *)
+Theorem C13_oracle_seq : forall c0 capacity ops,
+  in_i64 c0 = true -> forallb wf_op ops = true ->
+  let '(obs, s) := proxy_run c0 {| ps_ring := fresh_ring capacity; ps_next := wrap64 (c0 + 1) |} ops in
+  exists pending, after_steps c0 [] ops obs = Some pending /\
+                  map (expected c0) pending = recs_of (q (ps_ring s)) /\
+                  (recs_of (q (ps_ring s)) = [] -> holds_seq c0 ops obs = true).
+Proof. exact oracle_seq_model. Qed.
+Print Assumptions C13_oracle_seq.
+
+(* the sequence oracle refuses an Ok for which no record appears, and a record for a refused request *)
+Theorem C13_seq_oracle_rejects_lost : forall c0 r v,
+  holds_seq c0 [OpCall r; OpDrain 10] [Call (Ok v); Drained []] = false.
+Proof. exact holds_seq_lost_record. Qed.
+Print Assumptions C13_seq_oracle_rejects_lost.
+Theorem C13_seq_oracle_rejects_ghost : forall c0 r e rec,
+  holds_seq c0 [OpCall r; OpDrain 10] [Call (Err e); Drained [rec]] = false.
+Proof. exact holds_seq_ghost_record. Qed.
+Print Assumptions C13_seq_oracle_rejects_ghost.
+
+(* non-vacuity: 40 remove requests (32-byte records) on a 1 KiB ring: 32 are accepted, 8 refused
+   with an error, draining then hands out exactly the 32, and 2 more fit afterwards *)
+Example C13_example_full_ring :
+  let ops := repeat (OpCall (RqRemove RmCounter 7)) 40 ++ [OpDrain 5; OpCall RqKeepalive; OpCall (RqRemove RmPublication 9);
+                                                           OpDrain 1000; OpDrain 1000; OpDrain 1000] in
+  let '(obs, tl, hd, next) := proxy_seq 100 1024 ops in
+  Zlength (filter (fun o => match o with Call (Ok _) => true | _ => false end) obs) = 34 /\
+  Zlength (filter (fun o => match o with Call (Err IllegalState) => true | _ => false end) obs) = 8 /\
+  tl = hd /\ next = 142 /\ holds_seq 100 ops obs = true.
+Proof. vm_compute. repeat split. Qed.
